@@ -241,6 +241,8 @@ class Server:
                     n = 1 if not self.cfg["multi"] else r.randint(1, len(ready))
                     ops = ready[:n]
                     cpu = r.randint(1, max(1, int(cpu_left)))
+                    if k.get("fractional_cpu") and r.random() < 0.4:
+                        cpu = r.choice([c for c in (0.5, 1.25, 1.5, 2.75) if c <= cpu_left] or [cpu])
                     ram = ram_left * r.choice([0.1, 0.25, 0.5, 1.0])
                     if ram <= 0:
                         break
@@ -407,7 +409,7 @@ def gen_scn(r, tier):
     scn["policy_seed"] = r.randint(0, 10 ** 9)
     scn["latency"] = r.choice(["fast", "slow", "wild"])
     scn["policy_knobs"] = {"p_asg": r.choice([0.3, 0.7, 1.0]), "p_sus": r.choice([0, 0.3, 1.0]),
-                           "per_pool": r.choice([1, 2, 4]), "retry": r.random() < 0.6}
+                           "per_pool": r.choice([1, 2, 4]), "retry": r.random() < 0.6, "fractional_cpu": r.random() < 0.3}
     return scn
 
 
